@@ -166,10 +166,14 @@ Definition get_eligible_cpus (pid : Z) (k : kernel) : outcome (list Z) :=
    -1 -> ValueError, CPU_SET ignores ids outside 0..1023 of the fixed cpu_set_t.
    With both kinds of bad item present the set order decides which error is raised;
    both are handled alike by the caller (lemma diagnose_value), the model picks ValueError. *)
+(* CPU_SET(value, &cpu_set) with [long value]: the macro converts to size_t and sets the bit only
+   if it lies inside the 1024-bit cpu_set_t; the value is NOT narrowed to an int first, so
+   2^31, 2^32, 2^32+k, 2^62 ... name no CPU at all (negative longs become huge size_t values) *)
+Definition cpu_set_bit (v : Z) : bool := (0 <=? v) && (v <? 1024).
 Definition c_build_set (l : list Z) : outcome (list Z) :=
   if existsb (fun v => v =? -1) l then Exc ValueError
   else if existsb (fun v => negb (fits_long v)) l then Exc OverflowError
-  else Val (filter (fun v => (0 <=? v) && (v <? 1024)) l).
+  else Val (filter cpu_set_bit l).
 
 (* _pslinux.cpu_affinity_set: diagnosis after ValueError / OverflowError / EINVAL *)
 Definition diagnose (pid : Z) (cpus : list Z) (err_is_value : bool) (k : kernel) : outcome resv :=
